@@ -135,6 +135,10 @@ pub fn alphabet(thorough: bool) -> Vec<Val> {
         Val::Utf8(String::new()),
         Val::Utf8("a".into()),
         Val::Utf8("\u{20ac}x".repeat(75)), // 300 bytes
+        // multi-byte characters straddling the 255-byte block boundary at both
+        // possible alignments (blocks are cut at byte, not character, boundaries)
+        Val::Utf8(format!("a{}", "\u{20ac}".repeat(100))), // 301 bytes, char spans 253..256
+        Val::Utf8(format!("aa{}", "\u{20ac}".repeat(100))), // 302 bytes, char spans 254..257
         Val::Bits(vec![]),
         Val::Bits(vec![true]),
         Val::Bits(vec![true, false, true]),
